@@ -217,6 +217,23 @@ def run(case):
                          features=pl.DataFrame({"uid": list(range(nm)), "g": [j % 2 for j in range(nm)]}))
         loader = SubtomogramLoader(vol, mole, order=order, scale=s, output_shape=shape)
 
+    # ---- a common constant grey level under tomogram and template (not for the simulated loader, whose sub-volumes
+    #      are made from the template itself)
+    bg = 0.0
+    if kind in ("single", "batch", "group") and not hand and gen.rng_for(p["iseed"], "c01-bg").random() < 0.35:
+        bg = 0.5 * float(tmpl.max())
+        tmpl = (tmpl + np.float32(bg)).astype(np.float32)
+        if kind == "batch":
+            mo_all = loader.molecules
+            nl_ = BatchLoader(order=order, scale=s, output_shape=shape)
+            for key_ in list(loader.images.keys()):
+                sel = mo_all.filter(pl.col("image-id") == key_).drop_features(["image-id"])
+                nl_.add_tomogram((np.asarray(loader.images[key_]) + np.float32(bg)).astype(np.float32), sel, image_id=key_)
+            loader = nl_
+        else:
+            loader = SubtomogramLoader((np.asarray(loader.image) + np.float32(bg)).astype(np.float32), loader.molecules,
+                                       order=order, scale=s, output_shape=shape)
+        case.count("with_background")
     # ---- run
     if kind in ("single", "batch", "mock"):
         out = loader.align(tmpl, max_shifts=ms_nm, alignment_model=Model, **kw).molecules
